@@ -40,14 +40,14 @@ Definition diag_of (grid : list nat) (o : list Z) : Z := dotZ (strides grid) (re
 
 (* ---- boundary zeroing, sequential:  positions of one row of `data` that are overwritten with 0 ---- *)
 (* for (k = 0; k < N_v; k += step) for (l = 0; l < len; l++) { if (k+l > N_v) break; data[k+l] = 0; }
-   (k+l grows with l, so the break is the filter  k+l <= N_v ; k = t*step < N_v forces t < N_v for step >= 1) *)
+   (k+l grows with l, so the break is the filter  k+l <= N_v ; k = t*step < N_v forces t <= N_v/step) *)
 Definition seq_begin_pos (N step len : nat) : list nat :=
   flat_map (fun t => let k := t * step in
-     if k <? N then filter (fun p => p <=? N) (map (fun l => k + l) (seq 0 len)) else []) (seq 0 N).
+     if k <? N then filter (fun p => p <=? N) (map (fun l => k + l) (seq 0 len)) else []) (seq 0 (N / step + 1)).
 (* for (k = N_v; k > 0; k -= step) for (l = 0; l < len; l++) { if (k-l-1 < 0) break; data[k-l-1] = 0; } *)
 Definition seq_end_pos (N step len : nat) : list nat :=
   flat_map (fun t => let k := N - t * step in
-     if t * step <? N then map (fun l => k - l - 1) (filter (fun l => l <? k) (seq 0 len)) else []) (seq 0 N).
+     if t * step <? N then map (fun l => k - l - 1) (filter (fun l => l <? k) (seq 0 len)) else []) (seq 0 (N / step + 1)).
 
 (* for (j = 0; j < dim; j++) { idx = indices[i][j]; if (idx == 0) continue;
        len = prod_{k>j} grid[k]; step = len*grid[j]; if (idx > 0) <begin> else if (idx < 0) <end> }
@@ -71,7 +71,7 @@ Definition par_begin_pos (f nv step len : nat) : list nat :=
   flat_map (fun t => let k := cur + t * step in
      if k <? f + nv
      then map (fun p => p - f) (filter (fun p => (p <? f + nv) && (f <=? p)) (map (fun l => k + l) (seq 0 len)))
-     else []) (seq 0 (f + nv + 1)).
+     else []) (seq 0 ((f + nv) / step + 1)).
 (* current_step = step*((last/step)+1)   with C integer division (truncation; last = -1 on a process
    without rows whose first row is 0) *)
 Definition par_end_cur (f nv step : nat) : Z :=
@@ -84,7 +84,7 @@ Definition par_end_pos (f nv step len : nat) : list nat :=
      if (t * step <? cur) && (f <? k)
      then map (fun p => p - f)
             (filter (fun p => (f <=? p) && (p <? f + nv)) (map (fun l => k - l - 1) (filter (fun l => l <? k) (seq 0 len))))
-     else []) (seq 0 (f + nv + 1)).
+     else []) (seq 0 ((f + nv) / step + 1)).
 
 Fixpoint par_zero_pos (f nv : nat) (g : list nat) (o : list Z) : list nat :=
   match g, o with
